@@ -25,7 +25,7 @@ import traceback
 from vlib import env
 
 MAX_SAMPLES = 4
-FLOOR_FRACTION = 0.25
+FLOOR_FRACTION = 0.1
 MAX_REPLAYS = 6
 
 
